@@ -190,6 +190,13 @@ def observe(e):
     return [float(np.take(ov.value, -1)) if ov.enabled else "disabled" for ov in e.output_variables]
 
 
+def state_at_rest(e):
+    with np.errstate(all="ignore"):
+        return ([float(np.take(iv.value, -1)) for iv in e.input_variables]
+                + [x for ov in e.output_variables
+                   for x in (float(np.take(ov.value, -1)), float(np.take(ov.previous_value, -1)), float(len(ov.fuzzy.terms)))])
+
+
 def proc(e):
     try:
         with np.errstate(all="ignore"):
@@ -237,6 +244,10 @@ def run_impl(desc, ops):
             E["stream"].append(["restart-r"])     # the model with the reload step (Op.Session.restartR): every rule loads
             E["inputs"] = None
             E["clean"] = True
+            if E["obs"][-1] == ["restart", "ok"]:
+                # "restart gives a clean engine": what can be read from it before anything is processed (input values, output
+                # values and previous values, sizes of the fuzzy outputs) is what a freshly built engine shows
+                E["fresh_pairs"].append((state_at_rest(E["e"]), state_at_rest(G.build(E["d"]))))
         elif op[0] == "copy":
             c = E["e"].copy()
             engines.append({"e": c, "d": pycopy.deepcopy(E["d"]), "stream": list(E["stream"]), "obs": list(E["obs"]),
@@ -356,8 +367,9 @@ def oracle(case):
             return False, f"engine object {k}: {msg}"
         for got, want in E["fresh_pairs"]:
             if len(want) != len(got) or not all(c01.feq(a, b, 1e-12) if not isinstance(a, str) else a == b for a, b in zip(got, want)):
-                return False, (f"engine object {k}: a process step (after restart(), or with lock-previous off) gives {got}, a "
-                               f"freshly built engine with the same configuration and inputs gives {want}")
+                return False, (f"engine object {k}: a process step (after restart(), or with lock-previous off) - or the engine at "
+                               f"rest right after restart(): inputs, then value / previous value / number of activated terms per "
+                               f"output - gives {got}, a freshly built engine with the same configuration and inputs gives {want}")
         # the final process of every engine object (lock-previous off): equals a fresh engine of its (edited)
         # description processing the same inputs once
         if lock_free(E["d"]) and E["inputs"] is not None and all(o["enabled"] for o in E["d"]["outputs"]):
